@@ -196,4 +196,31 @@ def c16_extra(work, res, uf, rng, quick):
             sid = "C16-dec-%s-%d" % (c["cid"], i)
             dscen.append({"sid": sid, "prop": "C16", "vals": [], "steps": steps[i:i + 300], "tags": [], "dkey": sid})
     out.append(Batch("noncanonical-inputs", ddefs, dscen))
+    # holder types reading messages whose unknown fields are separated by known ones (the retained bytes are gathered from
+    # several places of the input: the input itself must stay as it was)
+    from universe import T, field, struct
+    hd = {"WRunsI": struct([field(i, "default", T("i32") if i % 3 else T("string")) for i in range(1, 11)])}
+    masks = [{2, 4}, {3, 6, 9}, {1, 5, 10}, {2, 3, 7, 8}, {5}, {1, 3, 5, 7, 9}]
+    for mi, mk in enumerate(masks):
+        hd["TRunsI%d" % mi] = struct([f for f in hd["WRunsI"]["fields"] if f["id"] in mk], unk=True)
+    U.with_defaults(hd)
+    hpath = vlib.write_defs(work, hd)
+    hcases = []
+    for vi in range(2):
+        v = U.base_value({"k": "struct", "ptr": False, "s": "WRunsI"}, hd, 2, vi)
+        for o in ("asc", "desc", "rot", "evod"):
+            hcases.append({"cid": "runs|%d|%s" % (vi, o), "w": "WRunsI", "val": v, "ord": o, "trail": [9] if vi else [], "mut": "none"})
+    hmsgs, st = vlib.gen_messages(work, hpath, hcases)
+    res.tlc_states += st.get("distinct", 0)
+    res.tlc_transitions += st.get("generated", 0)
+    hscen = []
+    for mi in range(len(masks)):
+        steps = []
+        for c in hcases:
+            m = hmsgs[c["cid"]][0]
+            steps.append({"op": "decode", "ty": "TRunsI%d" % mi, "in": m, "dest": "fresh"})
+            steps.append({"op": "decode", "ty": "TRunsI%d" % mi, "in": m, "dest": "zero"})     # the same buffer contents again
+        sid = "C16-dec-holder-runs-%d" % mi
+        hscen.append({"sid": sid, "prop": "C16", "vals": [], "steps": steps, "tags": ["holder-runs"], "dkey": sid})
+    out.append(Batch("holder-inputs", hd, hscen))
     return out
